@@ -9,18 +9,25 @@ from .model import run_model, crosscheck_in_coq, T
 ALIAS_FINDING = "C07-merge-adopts-source-by-reference"
 
 
-def dealias(e, ops):
-    """After every merge into object i insert `clone i -> i` (a deep copy of the object onto itself:
-    no-op in the value-semantics model), so that state adopted BY REFERENCE from a source is
-    separated before anything is updated in place.  Only for entries flagged alias_on_merge."""
+def dealias(e, ops, nobj):
+    """Value-semantics isolation for entries flagged alias_on_merge: every merge reads deep copies of
+    its sources (placed in scratch slots nobj, nobj+1, ...) and the target is deep-copied onto itself
+    afterwards, so that state adopted BY REFERENCE never outlives the merge_state call.  All inserted
+    ops are `clone` ops: no-ops on the values in the (value-semantics) model.  Returns (ops, pool size)."""
     if not getattr(e, "alias_on_merge", False):
-        return list(ops)
-    out = []
+        return list(ops), nobj
+    out, extra = [], 0
     for o in ops:
-        out.append(o)
         if o[0] == "merge":
+            js = list(o[2])
+            for k, j in enumerate(js):
+                out.append(("clone", j, nobj + k))
+            extra = max(extra, len(js))
+            out.append(("merge", o[1], [nobj + k for k in range(len(js))]) + tuple(o[3:]))
             out.append(("clone", o[1], o[1]))
-    return out
+        else:
+            out.append(o)
+    return out, nobj + extra
 
 
 def hist_corr(ctx, ents, name="history-correspondence (regression family)", nhist=None, nops=(4, 8, 14), maxn=8):
@@ -34,37 +41,39 @@ def hist_corr(ctx, ents, name="history-correspondence (regression family)", nhis
         for h in range(per):
             cfg = cfgs[h % len(cfgs)]
             nobj = ctx.rng.choice([2, 3, 3, 4])
-            ops = history.gen_history(ctx.rng, e, cfg, nobj=nobj, nops=ctx.rng.choice(list(nops)), maxn=maxn)
-            ops = dealias(e, ops)
-            cases.append(history.model_case(e, cfg, nobj, ops))
-            meta.append((e, cfg, nobj, ops))
+            raw = history.gen_history(ctx.rng, e, cfg, nobj=nobj, nops=ctx.rng.choice(list(nops)), maxn=maxn)
+            ops, n2 = dealias(e, raw, nobj)
+            cases.append(history.model_case(e, cfg, n2, ops))
+            meta.append((e, cfg, nobj, raw, ops, n2))
     outs = run_model(cases)
     bad = {}
-    for (e, cfg, nobj, ops), mobs in zip(meta, outs):
+    for (e, cfg, nobj, raw, ops, n2), mobs in zip(meta, outs):
         try:
-            iobs = history.run_impl(e, cfg, nobj, ops)
+            iobs = history.run_impl(e, cfg, n2, ops)
             d = history.compare_obs(e, ops, mobs, iobs)
         except Exception as ex:
             d = {"at": -1, "why": f"implementation raised outside update/compute: {type(ex).__name__}: {ex}"}
         kinds = {o[0] for o in ops}
         s.case((e.name, repr(cfg), repr(ops)), len(kinds) >= 3 and len(ops) >= 4,
-               sample={"class": e.name, "cfg": cfg, "nobj": nobj, "ops": [list(o[:2]) for o in ops][:8]})
+               sample={"class": e.name, "cfg": cfg, "nobj": n2, "ops": [list(o[:2]) for o in ops][:8]})
         s.count("class:" + e.name)
         for o in ops:
             s.count("op:" + o[0])
         if d and e.name not in bad:
             def fails(trial, e=e, cfg=cfg, nobj=nobj):
                 try:
-                    return history.check_history(e, cfg, nobj, trial) is not None
+                    t2, m2 = dealias(e, trial, nobj)
+                    return history.check_history(e, cfg, m2, t2) is not None
                 except Exception:
                     return True
-            small = history.shrink_ops(ops, fails)
+            small = history.shrink_ops(raw, fails)
             small = history.shrink_batches(e, cfg, small, fails)
+            small, m2 = dealias(e, small, nobj)
             try:
-                d2 = history.check_history(e, cfg, nobj, small) or d
+                d2 = history.check_history(e, cfg, m2, small) or d
             except Exception as ex:
                 d2 = {"why": f"{type(ex).__name__}: {ex}"}
-            bad[e.name] = {"class": e.name, "cfg": cfg, "nobj": nobj, "ops": small, "disagreement": d2}
+            bad[e.name] = {"class": e.name, "cfg": cfg, "nobj": m2, "ops": small, "disagreement": d2}
             s.mismatches.append(bad[e.name])
     n, dis = crosscheck_in_coq(cases, outs, ctx.prop + "h", limit=ctx.n(40, 200))
     ctx.oblige(f"tie:extraction-vs-vm_compute:{name}", dis == 0,
@@ -77,30 +86,37 @@ def hist_corr(ctx, ents, name="history-correspondence (regression family)", nhis
 
 
 def alias_probe(ctx, ents):
-    """fresh target <- merge_state([updated source]); target.update(...); observe the SOURCE.
-    Value semantics (the model): the source is unchanged.  Reports each class whose source changes."""
+    """Two minimal patterns on the real classes; value semantics (the model) says the SOURCE is unchanged:
+       A: fresh target <- merge_state([src]);  target.update(b)      -> src changes
+       B: fresh target <- merge_state([src, src2])                   -> src changes during the merge itself."""
     s = ctx.stream("merge-aliasing probe (fresh target adopts source state by reference)")
     for e in ents:
         if not getattr(e, "alias_on_merge", False):
             continue
+        hit = False
         for cfg in e.configs(ctx.rng, ctx.quick)[:4]:
-            b1, b2 = e.gen_batch(ctx.rng, cfg, 3), e.gen_batch(ctx.rng, cfg, 2)
-            src, tgt = e.make(cfg), e.make(cfg)
-            e.update(src, cfg, b1)
-            before = state_val(src)
-            tgt.merge_state([src])
-            e.update(tgt, cfg, b2)
-            after = state_val(src)
-            d = close(before, after, 0)
-            s.case((e.name, repr(cfg), repr(b1), repr(b2)), True, sample={"class": e.name, "cfg": cfg})
-            s.count("class:" + e.name)
-            if d:
-                s.mismatches.append({"class": e.name, "cfg": cfg})
-                ctx.violation("failing-input", e.name,
-                              {"check": "merge-aliasing", "class": e.name, "cfg": cfg,
-                               "ops": [["upd", 1, b1], ["merge", 0, [1]], ["upd", 0, b2], ["state", 1]],
-                               "observed": "state of the SOURCE object 1 changed by the update of object 0: " + d,
-                               "expected": "source unchanged (value semantics; fix: adopt `.clone()` in merge_state)",
-                               "broken": f"non-interference:{e.name}"},
-                              finding_id=ALIAS_FINDING)
-                break
+            for pat in ("A", "B"):
+                b1, b2 = e.gen_batch(ctx.rng, cfg, 3), e.gen_batch(ctx.rng, cfg, 2)
+                src, src2, tgt = e.make(cfg), e.make(cfg), e.make(cfg)
+                e.update(src, cfg, b1)
+                before = state_val(src)
+                if pat == "A":
+                    tgt.merge_state([src])
+                    e.update(tgt, cfg, b2)
+                    ops = [["upd", 1, b1], ["merge", 0, [1]], ["upd", 0, b2], ["state", 1]]
+                else:
+                    e.update(src2, cfg, b2)
+                    tgt.merge_state([src, src2])
+                    ops = [["upd", 1, b1], ["upd", 2, b2], ["merge", 0, [1, 2]], ["state", 1]]
+                d = close(before, state_val(src), 0)
+                s.case((e.name, repr(cfg), pat, repr(b1), repr(b2)), True, sample={"class": e.name, "cfg": cfg, "pattern": pat})
+                s.count("class:" + e.name)
+                if d and not hit:
+                    hit = True
+                    s.mismatches.append({"class": e.name, "cfg": cfg, "pattern": pat})
+                    ctx.violation("failing-input", e.name,
+                                  {"check": "merge-aliasing", "class": e.name, "cfg": cfg, "pattern": pat, "ops": ops,
+                                   "observed": "state of the SOURCE object 1 changed: " + d,
+                                   "expected": "source unchanged (value semantics; fix: adopt `.clone()` in merge_state)",
+                                   "broken": f"non-interference:{e.name}"},
+                                  finding_id=ALIAS_FINDING)
